@@ -10,8 +10,9 @@ import time
 from pathlib import Path
 
 VERIF = Path(__file__).resolve().parent.parent
-EVIDENCE = VERIF / "evidence"
-REPLAYS = VERIF / "replays"
+_OUT = Path(os.environ["VERIF_OUT"]) if os.environ.get("VERIF_OUT") else VERIF  # seed scans write elsewhere
+EVIDENCE = _OUT / "evidence"
+REPLAYS = _OUT / "replays"
 KNOWN = VERIF / "known_findings.json"
 
 ASSUMPTIONS = {
